@@ -4,6 +4,7 @@ import (
 	"context"
 	"crypto/tls"
 	"crypto/x509"
+	"encoding/pem"
 	"time"
 
 	sdk "github.com/cosmos/cosmos-sdk/types"
@@ -39,12 +40,12 @@ func NewServerTLSConfig(ctx context.Context, certs []tls.Certificate, cquery cty
 
 				// 1. CommonName in issuer and Subject must match and be as Bech32 format
 				if cert.Subject.CommonName != cert.Issuer.CommonName {
-					return errors.Wrap(err, "tls: invalid certificate's issuer common name")
+					return errors.New("tls: invalid certificate's issuer common name")
 				}
 
 				// 2. serial number must be in
 				if cert.SerialNumber == nil {
-					return errors.Wrap(err, "tls: invalid certificate serial number")
+					return errors.New("tls: invalid certificate serial number")
 				}
 
 				// 3. look up certificate on chain
@@ -66,8 +67,18 @@ func NewServerTLSConfig(ctx context.Context, certs []tls.Certificate, cquery cty
 					return errors.New("tls: attempt to use non-existing or revoked certificate")
 				}
 
+				// the presented certificate must verify against the certificate published on chain, not against itself
+				blk, _ := pem.Decode(resp.Certificates[0].Certificate.Cert)
+				if blk == nil {
+					return errors.New("tls: invalid on-chain certificate")
+				}
+				var onchain *x509.Certificate
+				if onchain, err = x509.ParseCertificate(blk.Bytes); err != nil {
+					return errors.Wrap(err, "tls: failed to parse on-chain certificate")
+				}
+
 				clientCertPool := x509.NewCertPool()
-				clientCertPool.AddCert(cert)
+				clientCertPool.AddCert(onchain)
 
 				opts := x509.VerifyOptions{
 					Roots:                     clientCertPool,
